@@ -64,6 +64,8 @@ impl<F: RedisClientFactory> ReplicatorManager<F> {
         }
 
         let force = flags.force;
+        #[cfg(feature = "verif")]
+        crate::common::verif::point("repl.updating_epoch.load");
         if !force && self.updating_epoch.load(atomic::Ordering::SeqCst) >= epoch {
             return Err(ClusterMetaError::OldEpoch);
         }
@@ -72,6 +74,8 @@ impl<F: RedisClientFactory> ReplicatorManager<F> {
         // Set epoch first to let later requests fail fast.
         // We can't update the epoch inside the lock here.
         // Because when we get the info inside it, it may be partially updated and inconsistent.
+        #[cfg(feature = "verif")]
+        crate::common::verif::point("repl.updating_epoch.store");
         self.updating_epoch.store(epoch, atomic::Ordering::SeqCst);
         // After this, other threads might accidentally change `updating_epoch` to a lower epoch,
         // we will correct his later.
@@ -93,6 +97,8 @@ impl<F: RedisClientFactory> ReplicatorManager<F> {
 
         let mut new_replicators = HashMap::new();
         // Add existing replicators
+        #[cfg(feature = "verif")]
+        let verif_read_scope = crate::common::verif::LockScope::new("repl.replicators");
         for (key, (replicator, handle)) in self.replicators.read().1.iter() {
             if Some(true)
                 == master_key_set
@@ -111,6 +117,9 @@ impl<F: RedisClientFactory> ReplicatorManager<F> {
                 new_replicators.insert(key.clone(), (replicator.clone(), handle.clone()));
             }
         }
+
+        #[cfg(feature = "verif")]
+        drop(verif_read_scope);
 
         let mut new_masters = HashMap::new();
         let mut new_replicas = HashMap::new();
@@ -141,9 +150,13 @@ impl<F: RedisClientFactory> ReplicatorManager<F> {
         }
 
         {
+            #[cfg(feature = "verif")]
+            let _verif_scope = crate::common::verif::LockScope::new("repl.replicators");
             let mut replicators = self.replicators.write();
             if !force && epoch <= replicators.0 {
                 // We're fooled by the `updating_epoch`, update it.
+                #[cfg(feature = "verif")]
+                crate::common::verif::point("repl.updating_epoch.store(correct)");
                 self.updating_epoch
                     .store(replicators.0, atomic::Ordering::SeqCst);
                 return Err(ClusterMetaError::OldEpoch);
